@@ -179,7 +179,8 @@ def decide(constraint_builder, timeout_ms=20000):
     sol = z3.Solver()
     sol.set('timeout', timeout_ms)
     sol.add(*constraint_builder(s))
-    r = sol.check()
+    from ..z3v import guarded_check
+    r = guarded_check(sol, timeout_ms)
     if r == z3.unsat:
         return 'proved', None, time.time() - t
     if r == z3.sat:
